@@ -437,7 +437,9 @@ class EngineC13:
                             k2, sp = "semistrat", n_nz
                         else:
                             k2, sp = "stratified", n_nz
+                        self._judge_ctx = {"n_z": n_z, "osr": osr} if k2 == "stratified" else None
                         v = self._judge_triple(V, x, o, k2, sp, nnz, nzeros, label)
+                        self._judge_ctx = None
                         if self._shortfalls:
                             res.bump("probe:known_stratified_zero_shortfall", self._shortfalls)
                             self._shortfalls = 0
@@ -448,7 +450,9 @@ class EngineC13:
                     return None
             except Exception as e:  # noqa: BLE001
                 return V("sampler_returns_on_admissible_request", f"{fn}(shape={x.shape}, nnz={nnz}, n_nz={n_nz}, n_z={n_z}, samples={samples}) raised {type(e).__name__}: {e}")
+        self._judge_ctx = {"n_z": n_z, "osr": osr} if kind == "stratified" else None
         v = self._judge_triple(V, x, out, kind, split, nnz, nzeros, fn)
+        self._judge_ctx = None
         if self._shortfalls:
             res.bump("probe:known_stratified_zero_shortfall", self._shortfalls)
             self._shortfalls = 0
@@ -525,7 +529,19 @@ class EngineC13:
                 and not (vals[n:] != 0).any()
             ):
                 # recorded known finding: rejection sampling delivered fewer zeros than requested but
-                # values / weights keep the requested length; judge the part that is consistent
+                # values / weights keep the requested length; judge the part that is consistent.
+                # The tolerance is narrow: the shortfall must be one that the documented procedure (draw
+                # ceil(rate * ceil(s * size / zeros)) candidates with replacement, keep those that are zeros)
+                # can plausibly produce. A delivery far below that (probability < 1e-12) is something else.
+                ctx = getattr(self, "_judge_ctx", None)
+                if ctx and split is not None and nzeros > 0:
+                    from scipy.stats import binom
+
+                    s_req = ctx["n_z"]
+                    draws = int(np.ceil(ctx["osr"] * np.ceil(s_req * x.size / nzeros)))
+                    delivered = n - split
+                    if binom.cdf(delivered, draws, nzeros / x.size) < 1e-12:
+                        return V("sample_triple_is_consistent", f"{label}: only {delivered} of {s_req} requested zero samples were delivered although {draws} candidate draws at zero fraction {nzeros / x.size:.3f} make that implausible (p < 1e-12); {n} subscripts, {vals.shape[0]} values")
                 self._shortfalls += 1
                 k = n if split is None else min(split, n)
                 truth = x[tuple(subs[:k].T)] if k else np.array([])
